@@ -293,6 +293,8 @@ class Host(utils.EventEmitter):
         self.suggested_max_tx_octets = 251  # Max allowed
         self.suggested_max_tx_time = 2120  # Max allowed
         self.command_semaphore = asyncio.Semaphore(1)
+        self.command_credit_received = False  # Credit received while a command is pending
+        self.command_window_closed = False  # Last response left us with no credit
         self.long_term_key_provider = None
         self.link_key_provider = None
         self.pairing_io_capability_provider = None  # Classic only
@@ -703,9 +705,14 @@ class Host(utils.EventEmitter):
             self.pending_command = None
             self.pending_response = None
             if response is None or (
-                response.num_hci_command_packets and self.command_semaphore.locked()
+                (response.num_hci_command_packets or self.command_credit_received)
+                and self.command_semaphore.locked()
             ):
                 self.command_semaphore.release()
+            elif not response.num_hci_command_packets:
+                # No credit: wait for a flow control event before sending again
+                self.command_window_closed = True
+            self.command_credit_received = False
 
     @overload
     async def send_command(
@@ -1162,21 +1169,33 @@ class Host(utils.EventEmitter):
 
     def on_hci_command_complete_event(self, event: hci.HCI_Command_Complete_Event):
         if event.command_opcode == 0:
-            # This is used just for the Num_HCI_Command_Packets field, not related to
-            # an actual command
-            logger.debug('no-command event for flow control')
-
-            # Release the command semaphore if needed
-            if event.num_hci_command_packets and self.command_semaphore.locked():
-                logger.debug('command complete event releasing semaphore')
-                self.command_semaphore.release()
-
-            return
+            return self.on_flow_control_event(event)
 
         return self.on_command_processed(event)
 
     def on_hci_command_status_event(self, event: hci.HCI_Command_Status_Event):
+        if event.command_opcode == 0:
+            return self.on_flow_control_event(event)
+
         return self.on_command_processed(event)
+
+    def on_flow_control_event(
+        self, event: hci.HCI_Command_Complete_Event | hci.HCI_Command_Status_Event
+    ) -> None:
+        # This is used just for the Num_HCI_Command_Packets field, not related to
+        # an actual command
+        logger.debug('no-command event for flow control')
+        if not event.num_hci_command_packets:
+            return
+
+        if self.pending_command is not None:
+            # A command is outstanding (we only ever have one): the credit is used
+            # when that command completes
+            self.command_credit_received = True
+        elif self.command_window_closed:
+            logger.debug('flow control event releasing semaphore')
+            self.command_window_closed = False
+            self.command_semaphore.release()
 
     def on_hci_number_of_completed_packets_event(
         self, event: hci.HCI_Number_Of_Completed_Packets_Event
